@@ -454,6 +454,9 @@ func runC16extras(c *runCfg) {
 	}
 	parse := func(ctx context.Context, query string) (wire.PreparedStatements, error) {
 		return wire.Prepared(wire.NewStatement(func(ctx context.Context, w wire.DataWriter, p []wire.Parameter) error {
+			if query == "boom" {
+				panic("statement function panics")
+			}
 			return w.Complete("OK")
 		})), nil
 	}
@@ -515,6 +518,11 @@ func runC16extras(c *runCfg) {
 		{"stalled_oversize_header", big[:5]},
 		{"stalled_oversize_body", big[:300]},
 		{"stalled_oversize_discarding", cat(mBind(nil, []byte("nosuch"), nil, nil, nil), big[:300])},
+		// commands that ended badly earlier on this connection (a statement function that panicked under Execute, a
+		// failed batch) are over: nothing of them is still counted when Close is called
+		{"after_panic_in_execute", cat(mParse(nil, []byte("boom"), 0), mBind(nil, nil, nil, nil, nil), mExecute(nil, 0), mSync())},
+		{"after_panic_then_idle", cat(mParse(nil, []byte("boom"), 0), mBind(nil, nil, nil, nil, nil), mExecute(nil, 0), mSync(), mQuery([]byte("select 1")))},
+		{"after_failed_batch", cat(mExecute([]byte("nosuch"), 0), mParse(nil, []byte("x"), 0), mSync())},
 	}
 	for _, st := range stalls {
 		srv, err := wire.NewServer(parse, wire.Logger(quiet), wire.MessageBufferSize(256))
